@@ -71,7 +71,7 @@ func init() {
 	})
 }
 
-var c15Behaviours = []string{"nothing", "model", "collection", "notfound", "invalidquery", "invalidquery-msg", "error-res", "error-plain", "events", "events-many", "timeout-then-model",
+var c15Behaviours = []string{"nothing", "model", "collection", "notfound", "invalidquery", "invalidquery-msg", "error-res", "error-plain", "error-nomsg", "error-nil", "events", "events-many", "timeout-then-model",
 	"panic-reserr", "panic-err", "panic-str", "panic-int", "panic-runtime", "panic-nil", "reply-twice", "panic-after-reply"}
 
 type c15CB struct {
@@ -137,6 +137,11 @@ func c15Behave(ev *c15Event, qr res.QueryRequest) {
 		qr.Error(errRes)
 	case "error-plain":
 		qr.Error(errPlain)
+	case "error-nomsg":
+		qr.Error(&res.Error{Code: "custom.nomsg"})
+	case "error-nil":
+		// a nil *res.Error passed on unchecked
+		qr.Error((*res.Error)(nil))
 	case "events", "events-many":
 		n := 1
 		if ev.behaviour == "events-many" {
@@ -633,9 +638,17 @@ func c15CheckResponse(c *core.Ctx, ev *c15Event, rq *c15Req, data []byte, desc m
 		if r.Result == nil || (ev.typ == "model" && r.Result.Model == nil) || (ev.typ == "collection" && r.Result.Collection == nil) {
 			bad("want the model/collection supplied by the callback")
 		}
-	case "collection", "panic-err", "panic-str", "panic-int", "panic-runtime", "panic-nil", "error-plain":
+	case "collection", "panic-err", "panic-str", "panic-int", "panic-runtime", "panic-nil", "error-plain", "error-nil":
 		if code != "system.internalError" {
 			bad("want system.internalError")
+		}
+	case "error-nomsg":
+		var raw struct {
+			Error map[string]json.RawMessage `json:"error"`
+		}
+		json.Unmarshal(data, &raw)
+		if m, ok := raw.Error["message"]; code != "custom.nomsg" || !ok || string(m) != `""` {
+			bad("want the *res.Error verbatim, with a string message member")
 		}
 	case "notfound", "reply-twice", "panic-after-reply":
 		if code != "system.notFound" {
